@@ -158,8 +158,7 @@ def rule_b(ctx: Ctx) -> None:
                 'or in a helper only called under it.')
 
 
-def rule_c(ctx: Ctx) -> None:
-    rule = 'C18.c'
+def rule_c(ctx: Ctx, rule: str = 'C18.c') -> None:
     f = ctx.idx.method(LOADER, '_lazy_iterparse')
     g = cfg_of(ctx, f)
     acq = [n for n, c in call_nodes(g, lambda c: text(c.func) == 'self._lazy_lock.acquire')]
@@ -200,7 +199,7 @@ def rule_c(ctx: Ctx) -> None:
     ok = gs is not None and ss is not None and "'_lazy_lock'" in text(gs.node) and \
         any(isinstance(s, ast.Assign) and text(s.targets[0]) == 'self._lazy_lock' and is_lock_ctor(ctx, ss, s.value) for s in walk_no_nested(ss.node))
     ctx.ob(rule, 'a pickled/restored loader gets a fresh lazy lock', gs.loc() if gs else f'{c.module.relpath}:{c.node.lineno}', ok, '', key='lazy|pickle')
-    ctx.explain('C18.c: non-blocking acquire, fail-fast, and CFG must-pass-through of release() on every exit including '
+    ctx.explain(f'{rule}: non-blocking acquire, fail-fast, and CFG must-pass-through of release() on every exit including '
                 'implicit exception edges.')
 
 
